@@ -155,20 +155,6 @@ Section WithLib.
      symbols' types are InstanceClass objects, so for them line 445-448 takes c = sym.type, whose `extends`
      list is empty: extends_builtin(c) is False (518) and the argument is shifted (542) even when the
      type is an alias of a built-in.  The class's own modifications were consumed the first time. *)
-  (* Arguments that reach an already instantiated class are the parsed argument objects themselves,
-     shifted IN PLACE (542).  When such an object lands on the __value symbol of a __builtin instance
-     unconverted, the later deep copy of the flat symbol (flatten_component_refs, 786) goes through
-     ClassModificationArgument.__deepcopy__ (ast.py:581-587), whose hook is bound to the ORIGINAL parsed
-     object: the copy is the argument as parsed — full dotted target, scope None — and modify_symbol then
-     raises "Trying to set unknown symbol property <component name>".  `mark` remembers that an argument
-     is such a shifted object (a trailing empty class modification, which contributes nothing anywhere
-     else); `poison` is what the deep copy turns it into, up to the name of the unknown property. *)
-  Definition mark (a : marg) : marg := MArg (m_scope a) (m_target a) (m_mods a ++ [MClass []]).
-  Definition is_marked (a : marg) : bool :=
-    match rev (m_mods a) with MClass [] :: _ => true | _ => false end.
-  Definition poison (a : marg) : marg :=
-    if is_marked a then MArg None [iValueSym] (m_mods a) else a.
-
   (* Definition-order rule.  build_instance_tree instantiates the nested classes of an instance eagerly,
      in dictionary order (403-426), each with the instance as parent.  While nested class number i is
      being instantiated, the entries number >= i of the instance's dictionary are still PARSED classes:
@@ -246,8 +232,8 @@ Section WithLib.
                 ib <- (if in_inst : bool then Ok false else ebi tc tlex) ;;
                 sm0 <- (if (ib : bool) then Ok (flat_map to_symbol_mods args0) else shift_args args0) ;;
                 sm1 <- shift_args args1 ;;
-                let own := map (set_scope myref) (s_mods s ++ (if in_inst : bool then map mark sm0 else sm0)) in
-                let new := map (set_scope myref) (map mark sm1) in
+                let own := map (set_scope myref) (s_mods s ++ sm0) in
+                let new := map (set_scope myref) sm1 in
                 i <- (if in_inst : bool then rec tc tlex tparent [] (own ++ new)
                       else rec tc tlex tparent own new) ;;
                 build_syms ss' (filter keep menv) (filter keep extra)
@@ -264,7 +250,7 @@ Section WithLib.
         x0 <- flatten_extends f c lex menv0 ;;
         (* re-instantiating a __builtin instance: 331-341 moves the new arguments to __value as well *)
         let x := if Pos.eqb (x_kind x0) kBuiltin
-                 then mkExt (x_kind x0) (x_classes x0) (map (add_value_mods (map poison menv1)) (x_syms x0)) (x_eqs x0) (x_menv x0)
+                 then mkExt (x_kind x0) (x_classes x0) (map (add_value_mods menv1) (x_syms x0)) (x_eqs x0) (x_menv x0)
                  else x0 in
         let extra0 := if Pos.eqb (x_kind x0) kBuiltin then [] else menv1 in
         let names := map s_name (x_syms x) in
